@@ -11,6 +11,9 @@ CLAIMED = {
  "C02": ("reference-model monitor over an exhaustive argument-type matrix, a boundary lattice and generated calls",
          "Every builtin x every arity 0..max+1 x every argument vector over a 23-value pool (exhaustive to arity 3, arity 4 exhaustive in thorough), an exhaustive integer-parameter boundary lattice, and seeded document-directed calls (incl. caller-scope expression references) are executed through Search and compared with independent reference builtins (value, or error category).",
          "Trusts the reference builtins where they decide (abstentions listed in ref/DETERMINACY.md); huge pad widths are not executed (known finding on C03).", "§6 C02"),
+ "C03": ("crash monitor: recovered-panic oracle + child-death attribution via a crash-surviving intent slot; thorough tier repeats the data workloads under the race detector (checkptr)",
+         "Hostile expression bytes (exhaustive truncations of the corpus, random bytes/tokens, token mutants, 1 MiB flat inputs, 20 recursive constructs nested to 1e5/3e5 and 4e6) and hostile Go data (every numeric kind incl. NaN/Inf, odd json.Number texts, decimal specials, typed nils, foreign values, invalid UTF-8 in every argument position of every builtin and operator) are driven through Search, Compile and Expression.Search in child processes; every returned error is formatted; panics and process deaths are violations.",
+         "A death is attributed to the last intent record; address space capped at 4 GiB per child; wall-clock watchdog firings are 'not judged'. Known finding: pad widths beyond memory (known_findings.json).", "§6 C03"),
 }
 
 ALL = ["C%02d" % i for i in range(1, 21)]
